@@ -8,6 +8,8 @@
 (*   mode "wire"   bytes = Wire(tx), parsed with segwit allowed               *)
 (*   mode "noseg"  bytes = Stripped(tx), parsed with segwit NOT allowed       *)
 (*   mode "ext"    bytes = Wire(tx) followed by the unspents extension        *)
+(*   mode "ltcmweb" bytes = WireLTC(tx, TRUE): Litecoin's form with the MWEB   *)
+(*                 bit set and MWEB byte 0, parsed by the Litecoin dialect     *)
 EXTENDS TxParse, TxGrid, Json
 
 CONSTANTS Emit,          \* print the cases (replay) or only check the lemmas
@@ -15,6 +17,7 @@ CONSTANTS Emit,          \* print the cases (replay) or only check the lemmas
 
 Cases == {[mode |-> "wire", tx |-> t, us |-> <<>>] : t \in AllTx}
          \cup {[mode |-> "noseg", tx |-> t, us |-> <<>>] : t \in FamB2 \cup {x \in FamC : Len(x.outs) <= 1} \cup FamA2}
+         \cup {[mode |-> "ltcmweb", tx |-> t, us |-> <<>>] : t \in LtcBase}
          \cup {[mode |-> "ext", tx |-> t, us |-> u] : t \in {x \in ExtBase : Len(x.ins) = 1}, u \in UnspentLists(1)}
          \cup {[mode |-> "ext", tx |-> t, us |-> u] : t \in {x \in ExtBase : Len(x.ins) = 2}, u \in UnspentLists(2)}
          \cup {[mode |-> "ext", tx |-> t, us |-> u] : t \in {x \in ExtBase : Len(x.ins) = 3}, u \in UnspentLists(3)}
@@ -25,6 +28,7 @@ BuggyWire(tx) == Wire([tx EXCEPT !.ins = [i \in 1..Len(tx.ins) |->
 InputOf(c) == CASE c.mode = "wire"  -> IF Bug = "drop-empty-witness-items" THEN BuggyWire(c.tx) ELSE Wire(c.tx)
                 [] c.mode = "noseg" -> Stripped(c.tx)
                 [] c.mode = "ext"   -> WireExt(c.tx, c.us)
+                [] c.mode = "ltcmweb" -> WireLTC(c.tx, TRUE)
 ExpectedTx(c) == IF c.mode = "noseg" THEN StripWitness(c.tx) ELSE c.tx
 
 VARIABLE case
@@ -48,6 +52,10 @@ Record ==
    bip144 |-> HasWitness(case.tx),
    bytes |-> Show(InputOf(case)),
    stripped |-> Show(Stripped(case.tx)),
+   \* what re-serialising the parsed transaction must give: its standard form (an implementation that
+   \* cannot represent the MWEB marker writes the fields it has)
+   reser |-> IF case.mode = "ltcmweb" THEN Show(Wire(ptx')) ELSE <<"=bytes">>,
+   hogex |-> pf'.hogex,
    end |-> pc',
    standard |-> (pc' = "done" /\ pf'.canon /\ ~pf'.superfluous /\ pf'.ext # "bad"),
    parsed |-> IF ptx' = case.tx THEN [same |-> "tx"]
@@ -66,7 +74,7 @@ Init == /\ case \in 0..(NCH - 1)
 Pick == /\ pc = "pick"
         /\ \E j \in {j \in 1..Len(CaseSeq) : j % NCH = case} :
               /\ case' = CaseSeq[j]
-              /\ PStart(InputOf(CaseSeq[j]), CaseSeq[j].mode # "noseg")
+              /\ PStartD(InputOf(CaseSeq[j]), CaseSeq[j].mode # "noseg", CaseSeq[j].mode = "ltcmweb")
 Next == \/ Pick
         \/ /\ pc # "pick" /\ PNext /\ UNCHANGED case
            /\ (Emit /\ pc' \in Terminal) => PrintT(ToJson(Record))
@@ -84,13 +92,20 @@ RoundTrip == pc = "done" =>
                /\ pf.unspents = case.us
                /\ rest = <<>>
                /\ Standard
-               /\ WireExt(ptx, pf.unspents) = InputOf(case)
+               /\ IF case.mode = "ltcmweb"
+                  THEN pf.hogex /\ WireLTC(ptx, TRUE) = InputOf(case)
+                  ELSE ~pf.hogex /\ WireExt(ptx, pf.unspents) = InputOf(case)
 \* the extended form is used iff some witness stack is non-empty; it is recognisable by marker and flag
 Bip144Iff == pc = "version" =>
                LET w == Wire(case.tx) IN
                /\ HasWitness(case.tx) <=> (Take(Drop(w, 4), 2) = Marker)
                /\ ~HasWitness(case.tx) => w = Stripped(case.tx)
                /\ HasWitness(case.tx) => Size(w) > Size(Stripped(case.tx)) + 2
+\* Litecoin: flag 0x08 / 0x09 exactly as the witness data dictates; the Bitcoin dialect does not know them
+LtcFlagLemma == (pc = "version" /\ case.mode = "ltcmweb") =>
+               LET w == InputOf(case) IN
+               /\ Take(Drop(w, 4), 2) = Lit(<<0, IF HasWitness(case.tx) THEN 9 ELSE 8>>)
+               /\ Size(w) = Size(Wire(case.tx)) + (IF HasWitness(case.tx) THEN 1 ELSE 3)
 \* the id does not depend on witness data; the witness id does
 IdLemma == pc = "version" =>
                /\ TxId(case.tx) = TxId(StripWitness(case.tx))
